@@ -166,8 +166,14 @@ def run(tape, scenario):
     st.input_fn = inputs
 
     devices = [Serial(getattr(term, f"channel{i + 1}")) for i in range(nch)]
-    app = [dict(written=bytearray(), read=bytearray(), active=True,
-                rate=[0, 15, 40, 80][tape.draw(f"c28/app{i}/rate", 4)]) for i in range(nch)]
+    # each application reads its receive pipe with its own buffer size (a byte at a time,
+    # a fixed telegram length, or plenty), and may close its sending end once it has
+    # written its last command
+    app = [dict(written=bytearray(), read=bytearray(), active=True, closed=False,
+                rate=[0, 15, 40, 80][tape.draw(f"c28/app{i}/rate", 4)],
+                bufsize=tape.pick(f"c28/app{i}/read-size", [4096, 4096, 4096, 1, 7, 8, 22, 23]),
+                closes=tape.chance(f"c28/app{i}/closes-its-sending-end", 35))
+           for i in range(nch)]
     sg = SyncGroup(ec, devices)
     ncycles = 60 + tape.draw("c28/cycles", 240)
     cycles = [0]
@@ -178,7 +184,7 @@ def run(tape, scenario):
     def drain(i):
         try:
             while True:
-                got = os.read(devices[i].in_read, 4096)
+                got = os.read(devices[i].in_read, app[i]["bufsize"])
                 if not got:
                     break
                 app[i]["read"] += got
@@ -198,6 +204,20 @@ def run(tape, scenario):
                     a["written"] += chunk
                 except BlockingIOError:
                     pass
+            if cycles[0] == ncycles and a["closes"] and not a["closed"]:
+                # the last command (shorter than a chunk) and the end of the stream arrive
+                # in the same cycle
+                k = 1 + tape.draw(f"c28/app{i}/last-len", 21)
+                chunk = bytes((len(a["written"]) + j * 11 + 32 + i) & 0xff for j in range(k))
+                try:
+                    os.write(devices[i].out_write, chunk)
+                    a["written"] += chunk
+                except BlockingIOError:
+                    pass
+                os.close(devices[i].out_write)
+                devices[i].out_write = -1     # (not closed a second time at the end)
+                a["closed"] = True
+                world.count("c28/application-closed-its-sending-end")
         out = orig_update(data)
         for i in range(nch):
             drain(i)
